@@ -1484,6 +1484,46 @@ pub fn run_c16(tier: &str, seed: u64) -> Report {
     rn.require("non-object payloads: validators run with null and are honoured", 300);
     total.merge(rn);
 
+    // ---- payloads as ANOTHER implementation writes them (sealed at the core layer): escaped member names and strings,
+    // exponent spellings, 64-bit extremes, and objects that merely LOOK like serde_json's private number / raw-value
+    // encodings.  The validator must be handed exactly the authenticated value (the model is built with json!, not parsed).
+    let mut rfo = Report::new();
+    let foreign16: Vec<(&str, Vec<(String, Value)>)> = vec![
+        ("{\"seats\":{\"$serde_json::private::Number\":\"4\"},\"n\":1}", vec![("seats".into(), json!({"$serde_json::private::Number": "4"})), ("n".into(), json!(1))]),
+        ("{\"seats\":{\"$serde_json::private::Number\":\"-1.5e3\"}}", vec![("seats".into(), json!({"$serde_json::private::Number": "-1.5e3"}))]),
+        ("{\"seats\":{\"$serde_json::private::Number\":\"four\"},\"n\":1}", vec![("seats".into(), json!({"$serde_json::private::Number": "four"})), ("n".into(), json!(1))]),
+        ("{\"seats\":{\"$serde_json::private::RawValue\":\"4\"},\"n\":1}", vec![("seats".into(), json!({"$serde_json::private::RawValue": "4"})), ("n".into(), json!(1))]),
+        ("{\"aud\":{\"$serde_json::private::RawValue\":\"\\\"customers\\\"\"}}", vec![("aud".into(), json!({"$serde_json::private::RawValue": "\"customers\""}))]),
+        ("{\"\\u0061ud\":\"customers\",\"\\u006e\":1}", vec![("aud".into(), json!("customers")), ("n".into(), json!(1))]),
+        ("{\"aud\":\"cust\\u006fmers\\u002B\\n\",\"sub\":\"CORP\\\\alice\"}", vec![("aud".into(), json!("customers+\n")), ("sub".into(), json!("CORP\\alice"))]),
+        ("{\"f\":2.5e3,\"g\":1E2,\"h\":0.10}", vec![("f".into(), json!(2500.0)), ("g".into(), json!(100.0)), ("h".into(), json!(0.1))]),
+        ("{\"big\":18446744073709551615,\"neg\":-9223372036854775808,\"z\":-0.0}", vec![("big".into(), json!(u64::MAX)), ("neg".into(), json!(i64::MIN)), ("z".into(), json!(-0.0))]),
+        ("{ \"aud\" : \"customers\" ,\n\t\"n\" : [ 1 , { \"aud\" : \"nested\" } ] }", vec![("aud".into(), json!("customers")), ("n".into(), json!([1, {"aud": "nested"}]))]),
+        ("{\"emoji\":\"\\ud83e\\udd80\",\"aud\":\"\\u00e9\"}", vec![("emoji".into(), json!("\u{1F980}")), ("aud".into(), json!("\u{e9}"))]),
+    ];
+    for &p in &[P::V4L, P::V2L, P::V4P, P::V3L] {
+        let key = pools.key(p, 0);
+        for (layer, dp) in [(Layer::Generic, false), (Layer::Batteries, false), (Layer::Batteries, true)] {
+            for (ti, (text, model)) in foreign16.iter().enumerate() {
+                for (vi, behave) in [VBehave::Accept, VBehave::AcceptIfPresent, VBehave::Reject].into_iter().enumerate() {
+                    let validators: Vec<VSpec> = model
+                        .iter()
+                        .enumerate()
+                        .map(|(mi, (k, v))| VSpec { claim: if v.is_string() { to_claim(k, v) } else { to_claim(k, &json!("x")) }, behave: behave.clone(), reg: if layer == Layer::Generic && (ti + vi + mi) % 2 == 1 { VReg::ExtendOnly } else { VReg::ValidateClaim }, second: false, odd: 0 })
+                        .collect();
+                    let c = C16Case { validators_first: false, p, key: key.clone(), s: vec![ClaimOp::Extend(model.clone())], validators, expected: vec![], layer, default_parser: dp, forgery: "authentic".into(), class: "foreign-payload-spelling".into(), raw_payload: Some(text.to_string()) };
+                    let before = rfo.violations_total;
+                    c16_eval(&c, &mut rfo, seed);
+                    if rfo.violations_total == before {
+                        rfo.count("foreign payload spellings: validators are handed the authenticated value");
+                    }
+                }
+            }
+        }
+    }
+    rfo.require("foreign payload spellings: validators are handed the authenticated value", 300);
+    total.merge(rfo);
+
     // ---- LARGE tokens altered in their tail (beyond any size threshold that switches the MAC to a windowed path): the
     // validator must not be handed the altered value
     let mut rl = Report::new();
@@ -1793,4 +1833,4 @@ pub fn replay_c16(rec: &Value, case: &Value) -> Report {
     r
 }
 
-pub const RULE_C16: &str = "harness validators are static functions that append (key, value) to a thread-local call log and answer from a behaviour table (accept / reject / accept-iff-equal / accept-iff-present). For seeded random token claim sets, 0-3 validators over registered and custom keys (present and absent in the payload) are registered through validate_claim (every fifth time with a USER-DEFINED claim type that only names the key and serialises as a unit, a string or an object without / with more than that member) and, on GenericParser, through extend_validation_claims only; parsers: GenericParser, PasetoParser::new(), PasetoParser::default(). Each configuration parses either the authentic token or a forgery (wrong key, wrong footer, wrong assertion, relabelled header, bit flip, truncation). Monitors: no log entry for a forged token; for an authentic token every logged value equals the payload member (null when absent), each key at most once, Ok only if every registered validator ran and accepts, Err only if a validator or expectation fails, and the error stems from a rejecting validator. Plus large tokens (5 000 / 9 000 / 17 000-byte messages) with one bit flipped near the end of the body: no validator may be invoked. Plus 300 (thorough 3000) sequences where one parser processes shuffled authentic and forged tokens; 400 (thorough 4000) LIVE-parser sessions in which validators are added (validate_claim / extend_validation_claims) between parses of one parser object and every validator registered so far must run and be honoured on the next parse, incl. a second, distinguishable validator registered for a key that already has one (on the default parser: replacing the built-in exp validator) — the last registration runs and is honoured; authentic tokens whose payload is JSON but not an object (sealed at the core layer): validators still run, with null. distinct_nontrivial = distinct (protocol, parser kind, authentic|forgery kind, outcome, #validators, #rejecting, registration routes); plus argument-change sessions (the same token text under its own key, another key, after footer/assertion changes, after they are set to the empty string and set again: a refused presentation must leave the validator log empty); registered claim types are handed to validate_claim as X::default() every other time";
+pub const RULE_C16: &str = "[plus payloads as another implementation writes them, sealed at the core layer: escaped member names and strings, exponent spellings, 64-bit extremes, surrogate pairs, whitespace, objects that merely look like serde_json private number / raw-value encodings - the validator must be handed exactly the authenticated value] harness validators are static functions that append (key, value) to a thread-local call log and answer from a behaviour table (accept / reject / accept-iff-equal / accept-iff-present). For seeded random token claim sets, 0-3 validators over registered and custom keys (present and absent in the payload) are registered through validate_claim (every fifth time with a USER-DEFINED claim type that only names the key and serialises as a unit, a string or an object without / with more than that member) and, on GenericParser, through extend_validation_claims only; parsers: GenericParser, PasetoParser::new(), PasetoParser::default(). Each configuration parses either the authentic token or a forgery (wrong key, wrong footer, wrong assertion, relabelled header, bit flip, truncation). Monitors: no log entry for a forged token; for an authentic token every logged value equals the payload member (null when absent), each key at most once, Ok only if every registered validator ran and accepts, Err only if a validator or expectation fails, and the error stems from a rejecting validator. Plus large tokens (5 000 / 9 000 / 17 000-byte messages) with one bit flipped near the end of the body: no validator may be invoked. Plus 300 (thorough 3000) sequences where one parser processes shuffled authentic and forged tokens; 400 (thorough 4000) LIVE-parser sessions in which validators are added (validate_claim / extend_validation_claims) between parses of one parser object and every validator registered so far must run and be honoured on the next parse, incl. a second, distinguishable validator registered for a key that already has one (on the default parser: replacing the built-in exp validator) — the last registration runs and is honoured; authentic tokens whose payload is JSON but not an object (sealed at the core layer): validators still run, with null. distinct_nontrivial = distinct (protocol, parser kind, authentic|forgery kind, outcome, #validators, #rejecting, registration routes); plus argument-change sessions (the same token text under its own key, another key, after footer/assertion changes, after they are set to the empty string and set again: a refused presentation must leave the validator log empty); registered claim types are handed to validate_claim as X::default() every other time";
